@@ -3,6 +3,7 @@ address domain (vtable address = opaque base with low 4 bits zero, alignment rea
 layout); (2) sibling term agreement between GcPtr::alloc and the vtable's dealloc closure on
 value-numbered uninterpreted terms; (3) prefix_header_layout returns Layout::extend unmodified."""
 import itertools
+import re
 
 from gcv import interp
 from gcv.interp import Interp, State, TOP, UNIT, adt, ref, I
@@ -795,3 +796,43 @@ def value_layouts(chk, prog, config="default"):
                  detail="; ".join(sorted(set(probs))[:2]), loc="%s:%s" % (im["span"]["f"], im["span"]["l"]),
                  sample={"implementor": im["self_s"], "value_type": vty["s"], "parameters": params, "paths": somes})
     chk.floor("AllocMeta-impls[%s]" % config, n, 3)
+
+
+# ------------------------------------------------------------------------------------------------ metadata written once
+
+WRITE_FNS = ("::write", "::write_unaligned", "::write_volatile", "::replace", "::swap", "::copy_from", "::copy_from_nonoverlapping",
+             "::copy_to", "::copy_to_nonoverlapping")
+
+
+def meta_written_only_at_allocation(chk, prog, config="default"):
+    """The release path recomputes the block's layout from the per-value metadata stored in front of the header (the slice
+    length, say). "Released with the layout it was requested with" therefore needs that metadata to be written once, by
+    GcPtr::alloc, from the very value the request layout was computed from - and never again: a later writer (a
+    builder "shrinking" a partially initialised slice) makes every later release pass a different layout to the
+    allocator. Every call that writes a value of a `PtrMetadata` type through a pointer must sit in GcPtr::alloc or
+    in a private helper reachable only through it."""
+    from gcv.props import common as _common
+    prog.edges()
+    n = 0
+    allowed = {"gc_ptr::GcPtr::alloc"}
+    seen = set()
+    for e in prog.edges():
+        if not e.callee or not e.args or "PtrMetadata" not in e.args:
+            continue
+        if not (e.callee.startswith(("core::ptr::", "core::intrinsics::")) and e.callee.endswith(WRITE_FNS)):
+            continue
+        # the written type (the pointee of the pointer type argument) is the metadata itself
+        if not re.search(r"::<\s*<[^<>]*(?:<[^<>]*(?:<[^<>]*>[^<>]*)*>[^<>]*)*>::PtrMetadata\s*>::", e.args):
+            continue
+        caller = prog.fn_of_closure(e.caller)
+        if caller in seen:
+            continue
+        seen.add(caller)
+        n += 1
+        esc = None if caller in allowed else _common.escapes(prog, caller, allowed)
+        chk.inst("ptr-meta-written-only-at-allocation", "%s[%s]" % (caller, config), caller in allowed or esc is None,
+                 detail="`%s` overwrites the per-value metadata stored in front of the header (reachable from `%s`): the "
+                        "release path recomputes the block's layout from it, so the block is no longer returned with the "
+                        "layout it was requested with" % (caller, esc), loc="%s:%s" % (e.file, e.line),
+                 sample={"writer": caller, "call": e.callee})
+    chk.floor("ptr-meta-writers[%s]" % config, n, 1)
